@@ -231,9 +231,11 @@ class ConstantQubitNoiseModel(NoiseModel):
         self._prepend = prepend
 
     def _value_equality_values_(self) -> Any:
-        return self.qubit_noise_gate
+        return self.qubit_noise_gate, self._prepend
 
     def __repr__(self) -> str:
+        if self._prepend:
+            return f'cirq.ConstantQubitNoiseModel({self.qubit_noise_gate!r}, prepend=True)'
         return f'cirq.ConstantQubitNoiseModel({self.qubit_noise_gate!r})'
 
     def noisy_moment(self, moment: cirq.Moment, system_qubits: Sequence[cirq.Qid]) -> cirq.OP_TREE:
